@@ -223,8 +223,13 @@ def run_shards(module: Any, shard_list: list[Any], workers: int) -> list[Any]:
     pending.reverse()
     running: dict[Any, tuple[int, Any]] = {}
     limit = min(workers, len(shard_list))
-    while pending or running:
-        while pending and len(running) < limit:
+    # VERIF_FAILFAST=1 (used by the mutation tools only, never by a registered command): stop exploring as soon as one
+    # shard reports a violation that is not a known finding; the run is then reported as capped, not exhaustive.
+    failfast = os.environ.get("VERIF_FAILFAST") == "1"
+    known = {item["signature"] for item in _load_known().get("findings", []) if item.get("property") == module.PROPERTY}
+    stop = False
+    while (pending and not stop) or running:
+        while pending and not stop and len(running) < limit:
             index, shard = pending.pop()
             parent_conn, child_conn = ctx.Pipe(duplex=False)
             proc = ctx.Process(target=_child_main, args=(child_conn, index, shard))
@@ -239,6 +244,19 @@ def run_shards(module: Any, shard_list: list[Any], workers: int) -> list[Any]:
                 results[index] = f"INTERNAL shard {index} died without a result (exit code {proc.exitcode})"
             conn.close()
             proc.join()
+            res = results[index]
+            if failfast and not stop and (isinstance(res, str) or any(sig not in known for sig in res.violation_counts)):
+                stop = True
+                for other_conn, (other_index, other_proc) in list(running.items()):
+                    other_proc.terminate()
+                    other_proc.join()
+                    other_conn.close()
+                running.clear()
+    if stop:
+        for index, res in enumerate(results):
+            if res is None:
+                results[index] = ShardResult()
+                results[index].caps.append("fail-fast: not explored")
     return results
 
 
@@ -451,6 +469,8 @@ def main(module: Any, argv: list[str] | None = None) -> int:
         f"distinct_nontrivial={total.distinct_nontrivial} states={total.states} transitions={total.transitions} "
         f"outcomes={n_outcomes} exhaustive={exhaustive} wall={wall:.1f}s"
     )
+    if exit_code == 1 and os.environ.get("VERIF_FAILFAST") == "1":
+        return exit_code
     if total.evaluations and n_outcomes <= 1 and not getattr(module, "SINGLE_OUTCOME_OK", False):
         print(f"INTERNAL-ERROR property={prop}: vacuous exploration (one outcome from {total.evaluations} cases)")
         return 2
